@@ -90,7 +90,7 @@ def run(ctx):
                 "call's arguments are snapshotted before and compared after; plus API probes (returned "
                 "parameters, compute_poc, model/residual functions, rater); non-trivial = distinct history/probe")
     c03.common_setup(ctx, "C10")
-    c03.run_histories(ctx, "C10", focus=(3, 4, 1.5, 0.8, 5), nhist=45 if ctx.tier == "quick" else 1000,
+    c03.run_histories(ctx, "C10", focus=(3, 4, 1.5, 0.8, 5), nhist=80 if ctx.tier == "quick" else 1000,
                       direct_pp_edits=False)
     api_probes(ctx)
 
